@@ -28,6 +28,9 @@ ClassesOf(t) ==
 LeafTypes == {"bool", "int", "int64", "int8", "uint8", "uint64", "rune", "float64", "float32", "string", "AI", "AS", "AB", "AF", "A", "B"}
 Scalars == LeafTypes \ {"A", "B"}
 
+(* a struct of one package whose fields have struct / container / named types of another package: zero, set, empty *)
+CrossShapes == {"crossName", "crossB", "crossPBZero", "crossSBZero", "crossABZero", "crossAB", "crossMBZero", "crossBS", "crossEmpty"}
+
 (* which leaf types a shape's slot accepts *)
 Accepts(s) ==
     CASE s \in {"leaf", "slice2", "array2", "mapS", "emptySlice", "nilSlice", "emptyMap", "nilMap", "sliceOfSlice", "mapOfSlice"} -> LeafTypes
@@ -43,12 +46,12 @@ Accepts(s) ==
       [] s = "outerNamed" -> {"AS"}
       [] s = "outerU8"    -> {"uint8"}
       [] s = "outerI64"   -> {"int64"}
-      [] s \in {"outerZero", "outerPInZero", "outerMSZero", "outerSAZero", "outerAll"} -> {"bool"}   \* no real slot
+      [] s \in {"outerZero", "outerPInZero", "outerMSZero", "outerSAZero", "outerAll"} \cup CrossShapes -> {"bool"}   \* no real slot
 
 VARIABLES shape, leaf
 GenInit == /\ shape \in Shapes
            /\ \E t \in Accepts(shape) : \E c \in ClassesOf(t) : leaf = [t |-> t, c |-> c]
-           /\ (shape \in {"outerZero", "outerPInZero", "outerMSZero", "outerSAZero", "outerAll"} => leaf.c = "true")
+           /\ (shape \in {"outerZero", "outerPInZero", "outerMSZero", "outerSAZero", "outerAll"} \cup CrossShapes => leaf.c = "true")
 GenNone == FALSE /\ UNCHANGED <<shape, leaf>>
 
 EmitCase == PrintT(<<"CASE", ToJson([fam |-> "valuelit", case |-> [shape |-> shape, leaf |-> leaf]])>>)
